@@ -156,6 +156,33 @@ pub fn context_variants() -> Vec<(Vec<Inst>, Shape)> {
             }
         }
     }
+    // chains: a value typed by a value typed by a value .. N deep (N = 1..=40), then a constant typed by the last link and a
+    // switch on it: a typed value carries the width of its type however long the chain
+    for n in 1..=40u32 {
+        let mut p = vec![Inst::new("TypeInt", None, Some(300), vec![Arg::Lit32(64), Arg::Lit32(1)])];
+        for k in 0..n {
+            p.push(Inst::new("Undef", Some(300 + k), Some(301 + k), vec![]));
+        }
+        out.push((p.clone(), Shape { id: format!("Constant:i64:typed-through-a-chain-of-{}", n), inst: Inst::new("Constant", Some(300 + n), Some(399), vec![Arg::Lit64(0xFFFF_FFFF_FFFF_FFFB)]) }));
+        out.push((p, Shape { id: format!("Switch:i64:on-the-end-of-a-chain-of-{}", n), inst: Inst::new("Switch", None, None, vec![Arg::IdRef(300 + n), Arg::IdRef(40), Arg::Lit64(0xFFFF_FFFF_FFFF_FFFE), Arg::IdRef(41)]) }));
+    }
+    // the same id declared twice at different widths (the later declaration counts), behind N other declarations and with
+    // or without a lower-numbered id declared after it
+    for n in [0u32, 5, 30, 31, 32, 40, 100] {
+        for low_after in [false, true] {
+            for (w1, w2, lit) in [(32u32, 64u32, Arg::Lit64(0x1_0000_0002)), (64, 32, Arg::Lit32(7))] {
+                let mut p = vec![Inst::new("TypeInt", None, Some(500), vec![Arg::Lit32(w1), Arg::Lit32(0)])];
+                for k in 0..n {
+                    p.push(Inst::new("TypeInt", None, Some(600 + k), vec![Arg::Lit32(1000 + k), Arg::Lit32(0)]));
+                }
+                p.push(Inst::new("TypeInt", None, Some(500), vec![Arg::Lit32(w2), Arg::Lit32(0)]));
+                if low_after {
+                    p.push(Inst::new("TypeInt", None, Some(3), vec![Arg::Lit32(16), Arg::Lit32(0)]));
+                }
+                out.push((p, Shape { id: format!("Constant:redeclared-{}-as-{}:after-{}:low-id-after={}", w1, w2, n, low_after), inst: Inst::new("Constant", Some(500), Some(900), vec![lit.clone()]) }));
+            }
+        }
+    }
     // a numeric type that is USED before it is declared (the lookup of its id misses: the literal is one word), then
     // declared, then used again directly afterwards and once more later: what an id resolves to is decided by the
     // declarations seen so far, not by what an earlier lookup of the same id answered
@@ -492,8 +519,39 @@ pub fn sweep(tier: Tier, f: &(dyn Fn(&str, &Mutant) -> (Option<Viol>, String, bo
     Sweep { viols, outcomes, evaluations, distinct: hashes.len() as u64, accepted, samples, seeds: seeds.len(), k_completed }
 }
 
+/// every 16-bit opcode number as the only instruction (1 word, and 2 words) of a binary, parsed twice in a row on one
+/// thread after a parse that ended on that very number: each parse gives what the reference acceptor says
+fn opcode_twice() -> (u64, Vec<Viol>) {
+    let g = golden();
+    let mut viols = vec![];
+    let mut n = 0u64;
+    for y in 0..=0xFFFFu32 {
+        for wc in [1u32, 2] {
+            let mut w = model::header(0x0001_0300, 0, 10);
+            w.push((wc << 16) | y);
+            if wc == 2 {
+                w.push(1);
+            }
+            let known = g.lookup(y as u16).is_some();
+            let first = crate::util::parse_collect_words(&w).0.map_err(|e| crate::util::state_name(&e));
+            let second = crate::util::parse_collect_words(&w).0.map_err(|e| crate::util::state_name(&e));
+            n += 2;
+            if first != second || (!known && first != Err("OpcodeUnknown")) {
+                if viols.len() < 3 {
+                    viols.push(viol("C03:accept-mismatch:same-binary-twice", format!("a binary whose only instruction is opcode {} ({} word(s)) parsed twice in a row gives {:?} and then {:?}{}", y, wc, first, second, if known { "" } else { "; the grammar does not know this opcode" }), json!({"kind": "words", "words": w})));
+                }
+            }
+        }
+    }
+    (n, viols)
+}
+
 pub fn run(tier: Tier) -> Run {
     let mut run = Run::new("C03", tier, "fault_enumeration");
+    // first, on this one thread and before anything else has parsed anything: every opcode number twice in a row
+    let (twice_n, twice_v) = opcode_twice();
+    run.add_all(twice_v);
+    run.outcome("same_binary_twice_parses", twice_n);
     let mut sw = sweep(tier, &check_mutant);
     // ---- every ordered pair of opcodes (minimal shapes, unmodified) as neighbours: what the parser does with Y must not
     //      depend on which instruction X stands immediately in front of it
